@@ -352,7 +352,10 @@ example : frameDivDecode [0, 3, 200] 8 [0,0,0,0,0,0,0,0] = .ok [0,0,0,200,0,0,0,
     current vector in that one channel end in the same device state (single vs bulk / all at the device);
   * `session_append` — sessions compose over concatenated histories (ANY asks, valid or not);
   * `session_padding_invisible` — for ANY asks (valid or not, e.g. a channel the device does not have) and any
-    write padding the session ends exactly as the unpadded one: same state or same exception. -/
+    write padding the session ends exactly as the unpadded one: same state or same exception;
+  * `en_div_independent` — enable and divider requests do not interfere at the device;
+  * `sessionVar_padding_invisible`, `sessionVar_agrees` — the same with a write padding that CHANGES before every
+    request. -/
 
 /-- frame id and NxScope payload of what a caller asks -/
 def fidOf : Ask → Nat
@@ -612,5 +615,96 @@ example : session 3 16 ⟨[false, false, false], [0, 0, 0]⟩ [.enOne 1 true, .e
   decide +kernel
 example : session 3 16 ⟨[false, false, false], [0, 0, 0]⟩ [.divOne 1 300] = .error .valueError := by
   decide +kernel
+
+/-- is it an enable request? -/
+def isEn : Ask → Bool
+  | .enOne .. | .enVec .. => true
+  | .divOne .. | .divVec .. => false
+
+private theorem intend_en_only (asks : List Ask) : ∀ (s s' : DevSt), s.en = s'.en →
+    (asks.foldl intend s).en = ((asks.filter isEn).foldl intend s').en := by
+  induction asks with
+  | nil => intro s s' h; exact h
+  | cons a as ih =>
+    intro s s' h
+    cases a with
+    | enOne c v => exact ih _ _ (by simp [intend, h])
+    | enVec vs => exact ih _ _ rfl
+    | divOne c v => exact ih _ _ h
+    | divVec vs => exact ih _ _ h
+
+private theorem intend_div_only (asks : List Ask) : ∀ (s s' : DevSt), s.div = s'.div →
+    (asks.foldl intend s).div = ((asks.filter fun a => !isEn a).foldl intend s').div := by
+  induction asks with
+  | nil => intro s s' h; exact h
+  | cons a as ih =>
+    intro s s' h
+    cases a with
+    | enOne c v => exact ih _ _ h
+    | enVec vs => exact ih _ _ h
+    | divOne c v => exact ih _ _ (by simp [intend, h])
+    | divVec vs => exact ih _ _ rfl
+
+/-- round 7: **enable and divider requests do not interfere at the device.**  After any mixed history of valid
+    requests (any forms, any padding) the device's enable vector is the one the enable requests ALONE would have
+    produced, and its divider vector the one the divider requests alone would have produced -/
+theorem en_div_independent (n pad : Nat) (h1 : 1 ≤ n) (hn : n ≤ 255) (asks : List Ask) (s : DevSt)
+    (hen : s.en.length = n) (hdiv : s.div.length = n) (hv : ∀ a ∈ asks, Valid n a) :
+    (session n pad s asks).map (·.en) = (session n pad s (asks.filter isEn)).map (·.en) ∧
+    (session n pad s asks).map (·.div) = (session n pad s (asks.filter fun a => !isEn a)).map (·.div) := by
+  rw [history_agrees n pad h1 hn asks s hen hdiv hv,
+    history_agrees n pad h1 hn _ s hen hdiv (fun a ha => hv a (List.mem_filter.mp ha).1),
+    history_agrees n pad h1 hn _ s hen hdiv (fun a ha => hv a (List.mem_filter.mp ha).1)]
+  exact ⟨congrArg Except.ok (intend_en_only asks s s rfl), congrArg Except.ok (intend_div_only asks s s rfl)⟩
+
+example : (session 3 4 ⟨[true, false, false], [0, 9, 0]⟩
+    [.enOne 1 true, .divVec [5, 6, 200], .enVec [false, true, true], .divOne 0 255]).map (·.en) =
+    (session 3 4 ⟨[true, false, false], [0, 9, 0]⟩ [.enOne 1 true, .enVec [false, true, true]]).map (·.en) := by
+  decide +kernel
+
+/-- a session in which the interface's write padding may CHANGE before every request (`(padding, ask)` pairs; the
+    client learns the padding from the device and may be re-configured) -/
+def sessionVar (n : Nat) (s : DevSt) : List (Nat × Ask) → Except Err DevSt
+  | [] => .ok s
+  | x :: xs =>
+    (x.2.build n).bind fun f =>
+      match devRecv n s (Pad.dataAlign x.1 f) with
+      | (s', .ok _) => sessionVar n s' xs
+      | (_, .error e) => .error e
+
+/-- round 7: whatever the padding is at each write and whatever is asked, the session ends as the unpadded one;
+    for valid asks therefore in the state obtained by applying the callers' intentions one after the other -/
+theorem sessionVar_padding_invisible (n : Nat) (xs : List (Nat × Ask)) : ∀ (s : DevSt),
+    sessionVar n s xs = session n 0 s (xs.map (·.2)) := by
+  induction xs with
+  | nil => intro s; rfl
+  | cons x xs ih =>
+    intro s
+    simp only [sessionVar, session, List.map_cons]
+    cases hb : x.2.build n with
+    | error e => rfl
+    | ok f =>
+      simp only [ok_bind]
+      have hB := R7.ask_built n x.2 f hb
+      have e : devRecv n s (Pad.dataAlign x.1 f) = devRecv n s (Pad.dataAlign 0 f) := by
+        unfold devRecv; rw [R7.built_align x.1 f hB, R7.built_align 0 f hB]
+      rw [e]
+      rcases devRecv n s (Pad.dataAlign 0 f) with ⟨s', r⟩
+      cases r with
+      | ok o => exact ih s'
+      | error e => rfl
+
+theorem sessionVar_agrees (n : Nat) (h1 : 1 ≤ n) (hn : n ≤ 255) (xs : List (Nat × Ask)) (s : DevSt)
+    (hen : s.en.length = n) (hdiv : s.div.length = n) (hv : ∀ x ∈ xs, Valid n x.2) :
+    sessionVar n s xs = .ok ((xs.map (·.2)).foldl intend s) := by
+  rw [sessionVar_padding_invisible]
+  exact history_agrees n 0 h1 hn _ s hen hdiv (by
+    intro a ha
+    obtain ⟨x, hx, rfl⟩ := List.mem_map.mp ha
+    exact hv x hx)
+
+example : sessionVar 3 ⟨[true, false, false], [0, 9, 0]⟩
+    [(0, .enOne 1 true), (16, .divVec [5, 6, 200]), (255, .enVec [false, true, true]), (3, .divOne 0 255)] =
+    .ok ⟨[false, true, true], [255, 6, 200]⟩ := by decide +kernel
 
 end Nxs.C05
